@@ -323,7 +323,7 @@ def restricted_evaluator(
     # this is the bit which rejects types which are not whitelisted
     visitor = RestrictedNodeVisitor(whitelist)
 
-    def _eval(expr, **variables):
+    def _eval(expr, /, **variables):
         # parse the expression
         try:
             expr_node = ast.parse(expr.strip(), mode='eval')
@@ -383,6 +383,9 @@ class RestrictedNodeVisitor(ast.NodeVisitor):
     def visit(self, node):
         if not isinstance(node, self._whitelist):
             # only permit whitelisted operations
+            raise _RestrictedEvalError(node)
+        if isinstance(node, ast.Name) and node.id == '__debug__':
+            # a compile-time constant, not a variable
             raise _RestrictedEvalError(node)
         return super().visit(node)
 
